@@ -97,6 +97,41 @@ def run_pipes(jobs, driver, timeout=1500):
     return res
 
 
+def table_rows(path):
+    """Rows of a generated OwnGraph.v by NAME (independent of the numbering): types, edges with their
+    position among the source's fields (declaration order), resource rows, policies."""
+    sect = None
+    names, rows, pos = {}, [], {}
+    pending = []
+    for line in open(path, errors="replace"):
+        m = re.match(r"^Definition (own_\w+)", line)
+        if m:
+            sect = m.group(1)
+            continue
+        if sect == "own_types":
+            m = re.match(r'^\s*\((\d+), "([^"]+)", (true|false), (true|false)\)', line)
+            if m:
+                names[m.group(1)] = m.group(2)
+                rows.append("type %s has_drop=%s user_visible=%s" % (m.group(2), m.group(3), m.group(4)))
+        elif sect == "own_edges":
+            m = re.match(r'^\s*\((\d+), (\d+), (\w+), "([^"]+)"\)', line)
+            if m:
+                pending.append(m.groups())
+        elif sect == "own_res":
+            m = re.match(r'^\s*\((\d+), "([^"]+)", "(.*)"\);?\s', line)
+            if m:
+                rows.append("resource %s.%s : %s" % (names.get(m.group(1), "?" + m.group(1)), m.group(2), m.group(3)))
+        elif sect == "own_policies":
+            m = re.match(r'^\s*\("(\w+)", "(\w+)", "(\w+)"\)', line)
+            if m:
+                rows.append("policy %s : %s (%s)" % m.groups())
+    for src, dst, kind, field in pending:
+        k = pos.get(src, 0)
+        pos[src] = k + 1
+        rows.append("edge %s -%s-> %s [field %s, #%d]" % (names.get(src, "?" + src), kind, names.get(dst, "?" + dst), field, k))
+    return rows
+
+
 def translate(ctx):
     """Regenerate the ownership table from /repo; returns (ok, fresh_path, diff_rows)."""
     wd = os.path.join(VERIF, "harness", "xlate-own")
@@ -111,10 +146,11 @@ def translate(ctx):
     rc, out = vlib.sh("timeout 120 %s %s %s %s" % (exe, REPO, fresh, os.path.join(WORK, "OwnGraph.json")), timeout=150)
     if rc != 0:
         return False, None, ["translator failed (rc %d): %s" % (rc, out[-1500:])]
-    a = open(GEN).read().split("\n") if os.path.exists(GEN) else []
-    b = open(fresh).read().split("\n")
-    rows = [l for l in difflib.unified_diff(a, b, "accepted gen/OwnGraph.v", "regenerated", lineterm="", n=0)
-            if (l.startswith("+") or l.startswith("-")) and not l.startswith("+++") and not l.startswith("---")]
+    a = table_rows(GEN) if os.path.exists(GEN) else []
+    b = table_rows(fresh)
+    rows = ["- " + r for r in a if r not in set(b)] + ["+ " + r for r in b if r not in set(a)]
+    if not rows and open(GEN).read() != open(fresh).read():
+        rows = ["~ same rows, different text/numbering (regenerated file differs from the accepted copy)"]
     return True, fresh, rows
 
 
